@@ -128,7 +128,8 @@ func runC11World(r *Run, seed int64, nReq int) {
 		minMsat: pick(rng, uint64(0), 1_000_000, 100_000_000, 100_000_001),
 		btcOn:   rng.Intn(6) != 0, lqOn: rng.Intn(6) != 0,
 		btcBal: pick(rng, uint64(0), 150_000, 1_000_000, 50_000_000, 1<<62), lbtcBal: pick(rng, uint64(0), 150_000, 1_000_000, 50_000_000, 1<<62),
-		ratePPM: pick(rng, int64(0), 1, -1, 2000, -2000, 1_000_000, -1_000_000, 999_999, int64(rng.Intn(20000))-10000),
+		// 0 ppm is listed three times: a configured rate of zero must not be confused with "no rate configured"
+		ratePPM: pick(rng, int64(0), 0, 0, 1, -1, 2000, -2000, 1_000_000, -1_000_000, 999_999, int64(rng.Intn(20000))-10000),
 		rateKind: pick(rng, "peer", "global", "default"),
 		chanLocal: pick(rng, uint64(0), 100_000_000, 1_000_000_000, 5_000_000_000), chanRemote: pick(rng, uint64(0), 100_000_000, 1_000_000_000, 5_000_000_000),
 	}
